@@ -602,6 +602,8 @@ type Box struct {
 	F32 []float32
 	Str []string
 	Any []interface{}
+	I64 []int64
+	U64 []uint64
 }
 
 // BoxField names the field of Box for an element kind.
@@ -615,6 +617,10 @@ func BoxField(k string) string {
 		return "F32"
 	case "string":
 		return "Str"
+	case "int64":
+		return "I64"
+	case "uint64":
+		return "U64"
 	}
 	return "Any"
 }
